@@ -3,7 +3,7 @@
 From Coq Require Import List ZArith Bool Lia Permutation.
 From DD Require Import Model.Circuit Model.Query Model.Enumerate
      Proofs.PassLemmas Proofs.Enum Proofs.Semantics Proofs.CountsA Proofs.QueryDefs
-     Proofs.C06Prefix Proofs.C06Node Proofs.C06Sort.
+     Proofs.C06Prefix Proofs.C06Machine Proofs.C06Node Proofs.C06Sort.
 Import ListNotations.
 Open Scope Z_scope.
 
@@ -228,83 +228,231 @@ Proof. intros HA. eapply NoDup_map_inv. now apply EOr_sorted_NoDup. Qed.
 
 End Page.
 
-(* ---------- (3) sequences of requests: the abstract paging machine ---------- *)
-Section Machine.
-Variables (X : Type) (c : Z) (E : list X).
+(* ---------- (3) sequences of requests ---------- *)
 
-Definition next_pos (p k : Z) : Z := Z.min c (p + k) mod c.
-
-Fixpoint spec_pages (p : Z) (ks : list Z) : list (list X) :=
-  match ks with
-  | [] => []
-  | k :: ks' => slice p (Z.min c (p + k)) E :: spec_pages (next_pos p k) ks'
-  end.
-Definition spec_pos (p : Z) (ks : list Z) : Z := fold_left next_pos ks p.
-
-Hypothesis Hc : 0 < c.
-Hypothesis HE : Z.of_nat (length E) = c.
-
-Lemma next_pos_range p k : 0 <= p < c -> 0 <= k -> 0 <= next_pos p k < c.
-Proof. intros. unfold next_pos. now apply Z.mod_pos_bound. Qed.
-
-Lemma spec_pos_range ks : forall p, 0 <= p < c -> Forall (fun k => 0 <= k) ks ->
-  0 <= spec_pos p ks < c.
-Proof.
-  induction ks as [|k ks IH]; intros p Hp Hk; [exact Hp|]. inversion Hk; subst.
-  cbn [spec_pos fold_left]. apply IH; [now apply next_pos_range|assumption].
-Qed.
-
-(* size of every page: min k (c - position) *)
-Fixpoint spec_lens (p : Z) (ks : list Z) : list Z :=
-  match ks with
-  | [] => []
-  | k :: ks' => Z.min k (c - p) :: spec_lens (next_pos p k) ks'
+(* a history of requests (assumption list, amount) against one cursor map *)
+Fixpoint run_pages (d : ddnnf) (reqs : list (cfg * Z)) (cur : cursor) (s : scratch)
+  : list (option (list cfg)) * cursor * scratch :=
+  match reqs with
+  | [] => ([], cur, s)
+  | (A', k) :: reqs' =>
+    let '(s2, cur2, r) := enumerate d A' k cur s in
+    let '(rs, cur3, s3) := run_pages d reqs' cur2 s2 in
+    (r :: rs, cur3, s3)
   end.
 
-Lemma spec_pages_lens ks : forall p, 0 <= p < c -> Forall (fun k => 0 <= k) ks ->
-  map (fun pg => Z.of_nat (length pg)) (spec_pages p ks) = spec_lens p ks.
+Section Run.
+Variables (C : circuit) (n : nat) (A : cfg).
+Hypothesis HWF : WF C n.
+Hypothesis Hn : (0 < n)%nat.
+Hypothesis Hor : or_no_true_child C = true.
+Hypothesis HA : in_range n A.
+Hypothesis HND : NoDup (map Z.abs A).
+(* the literals may be given in any order from call to call *)
+Hypothesis Hex : forall A', Permutation A A' -> exec_spec C n A'.
+
+Let d := build C n.
+Let c := MCA C n A.
+Let K := sort_abs A.
+Let E := EOr C A.
+
+Definition req_ok (r : cfg * Z) : Prop := Permutation A (fst r) /\ 0 <= snd r.
+
+Theorem pages_run reqs : forall cur s,
+  Clean C s -> Forall req_ok reqs -> 0 < c ->
+  let p := cur_get cur K in
+  0 <= p < c ->
+  exists cur' s',
+    run_pages d reqs cur s =
+      (map (fun pg => Some (map sort_abs pg)) (spec_pages c E p (map snd reqs)), cur', s') /\
+    Clean C s' /\
+    cur_get cur' K = spec_pos c p (map snd reqs) /\
+    (forall k, k <> K -> cur_get cur' k = cur_get cur k).
 Proof.
-  induction ks as [|k ks IH]; intros p Hp Hk; [reflexivity|]. inversion Hk; subst.
-  cbn [spec_pages spec_lens map]. f_equal.
-  - rewrite slice_length; lia.
-  - apply IH; [now apply next_pos_range|assumption].
+  induction reqs as [|[A' k] reqs IH]; intros cur s Hcl Hreq Hc p Hp.
+  - exists cur, s. cbn [run_pages map spec_pages spec_pos fold_left]. auto.
+  - inversion Hreq as [|? ? [HP Hk] Hreq']; subst. cbn [fst snd] in HP, Hk.
+    assert (HK : sort_abs A' = K) by (symmetry; now apply sort_abs_perm_eq).
+    assert (HcA : MCA C n A' = c) by (symmetry; now apply MCA_perm).
+    assert (HEA : EOr C A' = E) by (symmetry; now apply EO_perm).
+    assert (HA' : in_range n A') by (now apply (in_range_perm n A A')).
+    cbn [run_pages map snd spec_pages spec_pos fold_left].
+    fold (spec_pos c (next_pos c p k) (map snd reqs)).
+    assert (Hstep : exists s2 cur2, Clean C s2 /\
+              enumerate d A' k cur s =
+              (s2, cur2, Some (map sort_abs (slice p (Z.min c (p + k)) E))) /\
+              cur_get cur2 K = next_pos c p k /\
+              (forall k', k' <> K -> cur_get cur2 k' = cur_get cur k')).
+    { destruct (Z.eq_dec k 0) as [->|Hk0].
+      - exists s, cur. split; [exact Hcl|]. unfold d. rewrite enumerate_zero.
+        rewrite Z.add_0_r. replace (Z.min c p) with p by lia. rewrite slice_empty.
+        split; [reflexivity|]. split; [|reflexivity].
+        unfold next_pos. rewrite Z.add_0_r. replace (Z.min c p) with p by lia.
+        symmetry. apply Z.mod_small. exact Hp.
+      - destruct (enumerate_page C n HWF Hn Hor A' k cur s HA' (Hex A' HP) Hcl ltac:(lia))
+          as (s2 & Hcl2 & He).
+        + rewrite HcA. exact Hc.
+        + rewrite HK, HcA. exact Hp.
+        + exists s2, (cur_set cur K (next_pos c p k)). split; [exact Hcl2|].
+          unfold d. rewrite He, HK, HcA, HEA. split; [reflexivity|].
+          split; [apply cur_get_set_same|]. intros k' Hk'. now apply cur_get_set_other. }
+    destruct Hstep as (s2 & cur2 & Hcl2 & He & Hg2 & Ho2). rewrite He.
+    destruct (IH cur2 s2 Hcl2 Hreq' Hc) as (cur' & s' & Hr & Hcl' & Hg & Ho).
+    + rewrite Hg2. apply next_pos_range; [exact Hc|exact Hp|exact Hk].
+    + rewrite Hg2 in Hr, Hg. exists cur', s'. rewrite Hr.
+      split; [reflexivity|]. split; [exact Hcl'|]. split; [exact Hg|].
+      intros k' Hk'. rewrite Ho by exact Hk'. now apply Ho2.
 Qed.
 
-(* as long as the requests stay within the cycle the pages are consecutive slices *)
-Lemma spec_pages_within ks : forall p, 0 <= p < c -> Forall (fun k => 0 <= k) ks ->
-  p + zsum ks <= c ->
-  concat (spec_pages p ks) = slice p (p + zsum ks) E /\
-  spec_pos p ks = (p + zsum ks) mod c.
+Lemma NoDup_app_l {X} (l1 l2 : list X) : NoDup (l1 ++ l2) -> NoDup l1.
 Proof.
-  induction ks as [|k ks IH]; intros p Hp Hk Hs.
-  - cbn [spec_pages concat zsum fold_right spec_pos fold_left]. rewrite Z.add_0_r, slice_empty.
-    split; [reflexivity|]. symmetry. apply Z.mod_small. lia.
-  - inversion Hk as [|? ? Hk0 Hk']; subst. rewrite zsum_cons in *.
-    assert (Hz : 0 <= zsum ks).
-    { clear - Hk'. induction Hk' as [|x l Hx _ IHl]; [cbn; lia|rewrite zsum_cons; lia]. }
-    cbn [spec_pages concat spec_pos fold_left]. fold (spec_pos (next_pos p k) ks).
-    replace (Z.min c (p + k)) with (p + k) by lia.
-    destruct (Z.eq_dec (p + k) c) as [Hfull|Hnf].
-    + (* the page ends the cycle: the remaining requests are empty pages at position 0 *)
-      assert (Hz0 : zsum ks = 0) by lia.
-      unfold next_pos. replace (Z.min c (p + k)) with c by lia. rewrite Z_mod_same_full.
-      destruct (IH 0 ltac:(lia) Hk' ltac:(lia)) as [IH1 IH2].
-      rewrite IH1, IH2, Hz0. cbn [Z.add]. rewrite slice_empty, app_nil_r.
-      split; [f_equal; lia|]. rewrite Zmod_0_l. replace (p + (k + 0)) with c by lia.
-      now rewrite Z_mod_same_full.
-    + assert (Hnp : next_pos p k = p + k).
-      { unfold next_pos. replace (Z.min c (p + k)) with (p + k) by lia. apply Z.mod_small. lia. }
-      rewrite Hnp. destruct (IH (p + k) ltac:(lia) Hk' ltac:(lia)) as [IH1 IH2].
-      rewrite IH1, IH2, slice_app by lia. split; f_equal; lia.
+  induction l1 as [|x l1 IH]; intros H; [constructor|]. cbn [app] in H.
+  apply NoDup_cons_iff in H. destruct H as [H1 H2]. constructor; [|now apply IH].
+  intros Hin. apply H1. apply in_or_app. now left.
 Qed.
 
-(* one full cycle from position 0 *)
-Corollary spec_pages_cycle ks : Forall (fun k => 0 <= k) ks -> zsum ks = c ->
-  concat (spec_pages 0 ks) = E /\ spec_pos 0 ks = 0.
+(* what was returned, concatenated *)
+Definition pages_of (rs : list (option (list cfg))) : list cfg :=
+  concat (map (fun r => match r with Some l => l | None => [] end) rs).
+
+Lemma pages_of_some (pages : list (list cfg)) :
+  pages_of (map (fun pg => Some (map sort_abs pg)) pages) = map sort_abs (concat pages).
 Proof.
-  intros Hk Hs. destruct (spec_pages_within ks 0 ltac:(lia) Hk ltac:(lia)) as [H1 H2].
-  rewrite H1, H2, Hs. cbn [Z.add]. rewrite <- HE at 1. rewrite slice_all.
-  split; [reflexivity|apply Z_mod_same_full].
+  unfold pages_of. induction pages as [|pg pages IH]; [reflexivity|].
+  cbn [map concat]. now rewrite map_app, IH.
 Qed.
 
-End Machine.
+Lemma zsum_nonneg' ks : Forall (fun k => 0 <= k) ks -> 0 <= zsum ks.
+Proof. induction 1 as [|x l Hx _ IHl]; [cbn; lia|rewrite zsum_cons; lia]. Qed.
+
+Lemma reqs_amounts reqs : Forall req_ok reqs -> Forall (fun k => 0 <= k) (map snd reqs).
+Proof. induction 1 as [|r l [_ Hr] _ IHl]; cbn [map]; constructor; auto. Qed.
+
+Lemma E_length : Z.of_nat (length E) = c.
+Proof. apply EOr_length; assumption. Qed.
+
+(* every sequence of requests: the returned configurations are a segment of
+   E ++ E ++ ... starting at the cursor; the cursor stays in [0, c) *)
+Theorem pages_cyclic reqs cur s :
+  Clean C s -> Forall req_ok reqs -> 0 < c ->
+  let p := cur_get cur K in
+  0 <= p < c ->
+  exists rs cur' s',
+    run_pages d reqs cur s = (rs, cur', s') /\
+    pages_of rs = map sort_abs (cyc c E [] p (spec_total c p (map snd reqs))) /\
+    map (fun r => match r with Some l => Z.of_nat (length l) | None => -1 end) rs
+      = spec_lens c p (map snd reqs) /\
+    0 <= cur_get cur' K < c.
+Proof.
+  intros Hcl Hreq Hc p Hp.
+  destruct (pages_run reqs cur s Hcl Hreq Hc Hp) as (cur' & s' & Hr & _ & Hg & _).
+  pose proof (reqs_amounts reqs Hreq) as Hks.
+  eexists _, cur', s'. split; [exact Hr|]. fold p in Hg. split; [|split].
+  - rewrite pages_of_some. f_equal. apply spec_pages_cyc; auto. apply E_length.
+  - rewrite map_map. rewrite <- (spec_pages_lens _ c E Hc E_length (map snd reqs) p Hp Hks).
+    apply map_ext. intros pg. now rewrite map_length.
+  - rewrite Hg. now apply spec_pos_range.
+Qed.
+
+(* within one cycle (cursor 0, at most c configurations requested in total): the pages are the
+   consecutive slices, nothing is returned twice *)
+Theorem pages_within_cycle reqs cur s :
+  Clean C s -> Forall req_ok reqs -> 0 < c -> cur_get cur K = 0 ->
+  zsum (map snd reqs) <= c ->
+  exists rs cur' s',
+    run_pages d reqs cur s = (rs, cur', s') /\
+    pages_of rs = map sort_abs (firstn (Z.to_nat (zsum (map snd reqs))) E) /\
+    NoDup (pages_of rs) /\
+    cur_get cur' K = zsum (map snd reqs) mod c.
+Proof.
+  intros Hcl Hreq Hc Hp0 Hsum.
+  assert (Hp : 0 <= cur_get cur K < c) by lia.
+  destruct (pages_run reqs cur s Hcl Hreq Hc Hp) as (cur' & s' & Hr & _ & Hg & _).
+  pose proof (reqs_amounts reqs Hreq) as Hks.
+  rewrite Hp0 in *.
+  destruct (spec_pages_within _ c E Hc (map snd reqs) 0 ltac:(lia) Hks ltac:(lia)) as [H1 H2].
+  cbn [Z.add] in H1, H2.
+  assert (Hpg : pages_of (map (fun pg => Some (map sort_abs pg)) (spec_pages c E 0 (map snd reqs)))
+                = map sort_abs (firstn (Z.to_nat (zsum (map snd reqs))) E)).
+  { rewrite pages_of_some, H1, slice_0. reflexivity. }
+  eexists _, cur', s'. split; [exact Hr|]. split; [exact Hpg|]. split; [|now rewrite Hg].
+  rewrite Hpg.
+  pose proof (EOr_sorted_NoDup C n HWF A HA) as HN. fold E in HN.
+  rewrite <- (firstn_skipn (Z.to_nat (zsum (map snd reqs))) E), map_app in HN.
+  now apply NoDup_app_l in HN.
+Qed.
+
+(* a full cycle: exactly the models containing A, each once; the cursor is back at 0 *)
+Theorem pages_cycle reqs cur s :
+  Clean C s -> Forall req_ok reqs -> 0 < c -> cur_get cur K = 0 ->
+  zsum (map snd reqs) = c ->
+  exists rs cur' s',
+    run_pages d reqs cur s = (rs, cur', s') /\
+    pages_of rs = map sort_abs E /\
+    Permutation (pages_of rs) (ModelsA C n A) /\
+    NoDup (pages_of rs) /\
+    cur_get cur' K = 0.
+Proof.
+  intros Hcl Hreq Hc Hp0 Hsum.
+  destruct (pages_within_cycle reqs cur s Hcl Hreq Hc Hp0 ltac:(lia))
+    as (rs & cur' & s' & Hr & Hpg & HN & Hg).
+  exists rs, cur', s'. split; [exact Hr|].
+  assert (HE : pages_of rs = map sort_abs E).
+  { rewrite Hpg, Hsum, <- E_length, Nat2Z.id, firstn_all. reflexivity. }
+  split; [exact HE|]. split; [|split; [exact HN|]].
+  - rewrite HE. unfold E. rewrite (EOr_sort_canon C n HWF). now apply EOr_models.
+  - rewrite Hg, Hsum. apply Z_mod_same_full.
+Qed.
+
+End Run.
+
+(* ---------- exec_spec holds without any further hypothesis when there are no assumptions ---------- *)
+Lemma upd_length {X} i (x : X) l : length (upd i x l) = length l.
+Proof.
+  revert i. induction l as [|y l IH]; intros [|i]; cbn [upd length]; auto.
+Qed.
+
+Lemma nth_upd_other {X} i j (x d0 : X) l : i <> j -> nth i (upd j x l) d0 = nth i l d0.
+Proof.
+  revert i j. induction l as [|y l IH]; intros i j Hne; [destruct j; reflexivity|].
+  destruct j as [|j], i as [|i]; cbn [upd nth]; try reflexivity; [congruence|].
+  apply IH. congruence.
+Qed.
+
+Lemma hide_true_length (js : list nat) : forall t : list Z,
+  length (fold_left (fun t i => upd i 0 t) js t) = length t.
+Proof.
+  induction js as [|j js IH]; intros t; [reflexivity|]. cbn [fold_left]. now rewrite IH, upd_length.
+Qed.
+
+Lemma hide_true_nth (js : list nat) i : ~ In i js -> forall t : list Z,
+  nth i (fold_left (fun t i => upd i 0 t) js t) 0 = nth i t 0.
+Proof.
+  induction js as [|j js IH]; intros Hni t; [reflexivity|]. cbn [fold_left].
+  rewrite IH by (intros H; apply Hni; now right).
+  apply nth_upd_other. intros ->. apply Hni. now left.
+Qed.
+
+Lemma ModelsA_nil C n : ModelsA C n [] = Models C n.
+Proof.
+  unfold ModelsA. induction (Models C n) as [|m l IH]; [reflexivity|].
+  cbn [filter contains_all forallb]. now rewrite IH.
+Qed.
+
+Theorem exec_spec_nil C n : WF C n -> exec_spec C n [].
+Proof.
+  intros HWF s s1 s2 r Hcl Hpre Hq.
+  unfold preprocess in Hpre. cbn [existsb fold_left cnts circ build nv] in Hpre.
+  inversion Hpre; subst s1; clear Hpre.
+  cbn [sort_abs fold_right execute_query] in Hq. inversion Hq; subst s2 r; clear Hq.
+  split; [|split].
+  - unfold rc, rootn. cbn [cnts circ build]. fold (root C).
+    rewrite <- root_count_nth, (count_is_MC C n HWF). unfold MC, MCA. now rewrite ModelsA_nil.
+  - intros i Hi Hnt. cbn [temps sort_abs fold_right]. change (countsA [] C) with (counts C).
+    apply hide_true_nth. intros Hin. apply Hnt.
+    assert (Ht : is_true_node (build C n) i = true).
+    { unfold is_true_node. apply existsb_exists. exists i. split; [exact Hin|apply Nat.eqb_refl]. }
+    apply is_true_node_spec in Ht. apply Ht.
+  - destruct Hcl as [H1 H2 H3 H4 H5]. constructor; cbn [temps marks pds mdl]; auto.
+    rewrite hide_true_length. unfold counts. apply pass_length.
+Qed.
